@@ -38,7 +38,8 @@ LEVEL_NOTE = ('Lean kernel; gen_rules / gen_periodic / gen_query translators; Mo
               'connected components, the Morgan ranks used by standardize_charges and the pop order of the Python sets of fix_resonance '
               'are inputs taken from the real code; thiele/kekule, salts and the tautomer enumerators are outside the model '
               '(relational oracles only).')
-TECHNIQUE = 'Lean 4 model of the rule loop + theorems over regenerated rule tables + model-vs-code correspondence + relational oracles'
+TECHNIQUE = ('Lean 4 models of the rule loop, neutralize, standardize_charges and fix_resonance + theorems over regenerated rule tables '
+             '+ model-vs-code correspondence (set order / Morgan ranks as recorded inputs) + relational oracles incl. competing-match inputs built from every rule')
 RULE = ('cases: (molecule, rule) pairs and whole-molecule runs over documented spellings of the repo tests, every rule pattern instantiated '
         'as a molecule, corpus molecules decorated with instantiated groups, hand-made and random (often valence-invalid) skeletons; a case '
         'is non-trivial when the molecule has a bond and (for RULE/STD) at least one rule fired or (EXPL/IMPL/NEUT/NEUTX/CHG/RES) an atom '
